@@ -537,9 +537,14 @@ impl<'a> Gen<'a> {
                 self.scopes.push(vec![(name.clone(), ty)]);
                 let mut bindings = vec![(Target::Name(name.clone()), value)];
                 if self.tape.chance(30) {
-                    // a later binding sees the earlier one
+                    // a second binding. Whether its value may see the first target is not
+                    // settled by the documentation (Jinja: values are evaluated outside the
+                    // block; this engine binds left to right), so the value is generated with
+                    // the first target out of scope
                     let n2 = self.fresh("w");
+                    let hidden = self.scopes.pop().unwrap();
                     let v2 = self.expr(Ty::Int, 1);
+                    self.scopes.push(hidden);
                     bindings.push((Target::Name(n2.clone()), v2));
                     self.bind(&n2, Ty::Int);
                 }
